@@ -171,6 +171,7 @@ type tokIssue struct {
 
 func (r *Run) newSrvScen(o srvOpts) *srvScen {
 	sc := &srvScen{r: r, o: o, mute: o.mute, tokens: map[string][]tokIssue{}, announced: map[string]map[string]int{}, intro: map[string]bool{}, answered: map[string]bool{}, pendingTx: map[string]bool{}, nextPt: 10000}
+	sc.dead = r.c14Full()
 	sc.conn = newFakeConn(nil)
 	cfg := baseConfig(sc.conn)
 	cfg.NoSecurity = o.noSecurity
@@ -242,6 +243,11 @@ func (sc *srvScen) ev(format string, a ...interface{}) {
 func (sc *srvScen) viol(prop, what string) {
 	if prop == sc.r.Prop || sc.r.Prop == "SRVALL" {
 		sc.r.violation(what, append([]string{}, sc.events...))
+		if sc.r.c14Full() {
+			// the report is full: more scenarios add nothing, and a broken implementation makes each of them
+			// wait for its deadlines
+			sc.dead = true
+		}
 	}
 }
 
